@@ -87,6 +87,48 @@ def zip_star(x):
     return tuple(SSeq(("fun", n, (lambda k, i=i: x.get(k)[i])), "tuple") for i in range(len(first)))
 
 
+class Star:
+    """a symbolic sequence passed as *args to a callable that models the call itself (schema callables of opaque objects)"""
+
+    def __init__(self, seq):
+        self.seq = seq
+
+
+def star_call(f, before, star, after, kw):
+    if isinstance(star, SCursorSlice):
+        star = star.materialize()
+    if isinstance(star, SSeq) and not isinstance(star.length(), int):
+        return f(*before, Star(star), *after, **kw)
+    return f(*before, *star, *after, **kw)
+
+
+def ite_elt(test, a, b):
+    if isinstance(test, Sym):
+        return sym.ite_value(fml(test), a(), b)
+    return a() if test else b()
+
+
+def display(kind, parts):
+    """[*a, x, *b] / (x, *a) displays: concatenation when a starred part is symbolic"""
+    if not any(t == "s" and isinstance(v, (SSeq, SCursorSlice)) for t, v in parts):
+        out = []
+        for t, v in parts:
+            if t == "s":
+                out.extend(v)
+            else:
+                out.append(v)
+        return out if kind == "list" else builtins.tuple(out)
+    node = ("lit", [])
+    for t, v in parts:
+        if t == "s":
+            if isinstance(v, SCursorSlice):
+                v = v.materialize()
+            node = ("cat", node, SSeq.of(v if isinstance(v, SSeq) else builtins.list(v)).node)
+        else:
+            node = ("cat", node, ("lit", [v]))
+    return SSeq(node, kind)
+
+
 def v_enumerate(x, start=0):
     it = loop_iter(x)
     if it.concrete is not None and not isinstance(start, Sym):
@@ -205,6 +247,9 @@ def v_isinstance(x, t):
         return any(c in (base, object, cabc.Sequence, cabc.Iterable, cabc.Sized, cabc.Collection) for c in ts)
     if isinstance(x, SObj):
         from . import vcontract
+        hook = vcontract.ISINSTANCE_HOOKS.get(x.cls)
+        if hook is not None:
+            return hook(x, ts)
         return vcontract.sobj_isinstance(x, ts)
     return builtins.isinstance(x, t)
 
